@@ -2014,6 +2014,39 @@ func closureLeaks(mc *ssa.MakeClosure, cell ssa.Value) bool {
 // loopTypeInvariants: from == nil: assume at the header; otherwise oblige on the back edge.
 func (fr *frame) loopTypeInvariants(h *ssa.BasicBlock, st *bstate, from *ssa.BasicBlock) {
 	f := fr.f
+	// the hidden counter of a range-over-slice loop starts at -1 and is only ever incremented by
+	// one (checked on the SSA): it is never below -1.  This is what makes the element access of
+	// the loop body provably in range together with the loop's own test.
+	if from == nil {
+		for _, in := range h.Instrs {
+			phi, ok := in.(*ssa.Phi)
+			if !ok {
+				break
+			}
+			if phi.Comment != "rangeindex" {
+				continue
+			}
+			okShape, sawInit := true, false
+			for _, e := range phi.Edges {
+				if c, isC := e.(*ssa.Const); isC && c.Value != nil && c.Int64() == -1 {
+					sawInit = true
+					continue
+				}
+				o, isAdd := e.(*ssa.BinOp)
+				if !isAdd || o.Op != token.ADD || o.X != ssa.Value(phi) {
+					okShape = false
+					break
+				}
+				if oc, ok := o.Y.(*ssa.Const); !ok || oc.Value == nil || oc.Int64() != 1 {
+					okShape = false
+				}
+			}
+			okShape = okShape && sawInit
+			if v, have := fr.valOK(phi); okShape && have && v.K == KInt {
+				f.assume(st, app(">=", v.Tm, "(- 1)"), "range counter is never below -1")
+			}
+		}
+	}
 	for _, p := range fr.fn.Params {
 		ts := f.e.typeSpecOf(p.Type())
 		if ts == nil || len(ts.Invs) == 0 || fr.isCtorOf(ts) {
